@@ -32,7 +32,9 @@ put and keys on required traits; C02.5 the bucket gives up before walking its
 children only on the admission predicate, with no child, or after a successful
 put; C02.7 check_app_constraints rejects only on label / traits / affinity
 limit / ANY(free < demand), and decrement_affinity withdraws the whole
-multiset (shared with C04).
+multiset (shared with C04). Fourth round: C02.4 the feasibility memo consulted
+by a placement walk is created by that walk, on every path (never handed in
+across partitions); C02.6 also covers the deletion path (shared with C05.2).
 Does NOT decide the liveness statement as a whole (quiescent states reached
 by histories) nor the strategies' index arithmetic.
 """
